@@ -234,7 +234,7 @@ class SchemaLoaderDF(SchemaLoader):
         description = row[constants.description]
         tag_entry = self._schema._create_tag_entry(element_name, key_class)
 
-        if description:
+        if description and description.strip():
             tag_entry.description = description.strip()
 
         for attribute_name, attribute_value in node_attributes.items():
